@@ -18,6 +18,8 @@
       SWEEP t wall chk k v.. j x..       -> [TI n; (TI status+4*big; TI hash) * n]
       BLOCKSAVE t                        -> [TI 1; TI 1]  (save fails at open; dump unchanged)
       FAILSWEEP t wall                   -> [TI calls; TI all failed; TI dump unchanged; TI later save ok]
+      BGSWEEP t wall                     -> [TI calls; accepted; flag cleared; dump unchanged; later bgsave ok; newer data; mixed ok]
+      TEARSTRESS t saves torn runs       -> [TI 1]  (C10 (2): racing saves; the observation is judged, not compared)
       PROBE t wall chk                   -> [TI status+4*big; TI hash]  (load the file, flags-only hash)
       SLEEP t ms                         -> []                                      *)
 From Ferrous Require Import Base.Bytes Model.Resp Model.Types Model.Strings Model.Streams Model.Rdb.
@@ -306,6 +308,18 @@ Definition rdb_op (s : mst) (op : list tok) : list tok * mst :=
                         {| m_ds := map (purge t) ds; m_disk := m_disk s |})
         | _ => ([TB (bs "BADOP")], s)
         end
+      else if beq name (bs "BGSWEEP") then
+        (* background saves with an armed write failure, then undisturbed ones (Props/C10.v
+           c10_bgsave_flag_clear_when_idle, c10_later_bgsave_succeeds): every failing BGSAVE is
+           accepted, its thread ends, the flag clears, the dump is unchanged; a later BGSAVE is
+           accepted and publishes the newer data; likewise failing SAVE then BGSAVE and failing
+           BGSAVE then SAVE *)
+        match rest with
+        | [TI wall] => ([TI (calls_save ver_default (wall / 1000) t ds); TI 1; TI 1; TI 1; TI 1; TI 1; TI 1],
+                        {| m_ds := map (purge t) ds; m_disk := m_disk s |})
+        | _ => ([TB (bs "BADOP")], s)
+        end
+      else if beq name (bs "TEARSTRESS") then ([TI 1], s)   (* schedule-dependent observation, judged only *)
       else if beq name (bs "PROBE") then
         match rest with
         | [TI wall; TI chk] =>
